@@ -165,6 +165,27 @@ class Repo:
             self.edit(p)
         if tracked and r.random() < 0.5:
             os.remove(os.path.join(self.root, tracked[-1]))
+        # a tracked notebook whose PATH is no longer a file: a directory now sits where it was (a package took over the
+        # name), or a plain file sits where its directory was (a checkout of another layout): git reports it deleted
+        self.unreachable = None
+        tracked = [p for p in self.tracked() if p.endswith(".ipynb") and os.path.isfile(os.path.join(self.root, p))]
+        if tracked and r.random() < 0.3:
+            import shutil
+            p = r.choice(tracked)
+            d = os.path.dirname(p)
+            if d and r.random() < 0.5:
+                top = os.path.join(self.root, d.split(os.sep)[0])
+                shutil.rmtree(top)
+                with open(top, "w") as f:
+                    f.write("now a file\n")
+                self.unreachable = "directory-became-a-file"
+            else:
+                os.remove(os.path.join(self.root, p))
+                os.makedirs(os.path.join(self.root, p))
+                if r.random() < 0.5:
+                    with open(os.path.join(self.root, p, "inner.txt"), "w") as f:
+                        f.write("x\n")
+                self.unreachable = "notebook-path-became-a-directory"
 
 
 def parse_raw(z):
@@ -205,7 +226,7 @@ def expected(repo, ra, rb, paths_from_root):
         def content(ref, path):
             if ref == "WORK":
                 full = os.path.join(repo.root, path)
-                if not os.path.exists(full):
+                if not os.path.isfile(full):
                     return None
                 with open(full, encoding="utf8") as f:
                     return repo.cleaned(path, f.read())
@@ -268,6 +289,8 @@ def run_shard(spec):
         except RuntimeError as e:
             col.inconc("git harness: %s" % e)
             continue
+        if repo.unreachable:
+            col.count("repos_with_tracked_notebook_unreachable:" + repo.unreachable)
         commits = r.sample(repo.commits, min(4, len(repo.commits)))
         refpairs = [(a, b) for a in commits for b in commits if a != b]
         r.shuffle(refpairs)
